@@ -81,7 +81,7 @@ def run(tier, build, replay=None):
                               tags={"overspend-accepted"})
             if len(iv[1]) >= 3:
                 nontriv.add(core.case_hash(c))
-            if not bad and cov is None and len(ext_cases) < (500 if tier == "quick" else 8000):
+            if not bad and cov is None and len(ext_cases) < (1500 if tier == "quick" else 8000):
                 e = sell_all_case(c, taken)
                 if e:
                     ext_cases.append(e)
